@@ -800,6 +800,14 @@ class Executor:
                         return self.eval_const_item(st, mod.promoteds[k])
             # promoted[N] of current fn
             m = re.match(r"^(.*)::promoted\[(\d+)\]$", c)
+            if m and fr is not None:
+                # the promoted of the function being executed, referred to through its type path
+                # (`machine::Machine::return_compute::promoted[0]` for `machine::<impl at ..>::return_compute::promoted[0]`)
+                key = f"{fr.fn.name}::promoted[{m.group(2)}]"
+                if fr.fn.name.split("::")[-1] == m.group(1).split("::")[-1]:
+                    for mod in self.modules:
+                        if key in mod.promoteds:
+                            return self.eval_const_item(st, mod.promoteds[key])
             if m:
                 mi = re.match(r"^(.*)<impl (.*) for (.*)>::(\w+)$", m.group(1))
                 if mi:
@@ -819,6 +827,14 @@ class Executor:
                     for k, f in mod.promoteds.items():
                         if k.startswith(f"promoted[{m.group(2)}] in ") and (k.endswith(m.group(1)) or fr.fn.name.endswith(k.split(" in ", 1)[1]) or k.split(" in ", 1)[1].endswith(m.group(1))):
                             return self.eval_const_item(st, f)
+            # a field-less enum variant written as a constant (`const num_bigint::Sign::Minus`)
+            segs = re.sub(r"<.*>", "", c).split("::")
+            if len(segs) >= 2:
+                d = self.decls.get(segs[-2])
+                if d is not None and d.kind == "enum":
+                    for vv in d.variants:
+                        if vv.name == segs[-1] and not vv.fields:
+                            return Adt(segs[-2], segs[-1], ())
             return FnRef(self.subst_ty(c, fr) if fr is not None else c)
         raise Unsupported(f"const {c}")
 
